@@ -96,7 +96,7 @@ impl Property for C06 {
         }
         let verdict = match compare(&obs, &r) {
             None => Verdict::Pass,
-            Some((clause, detail)) => Verdict::Fail(Failure::new(&clause, &format!("c06:{}{}", clause, sig_tail), detail)),
+            Some((clause, detail)) => Verdict::Fail(Failure::new(&clause, &crate::props::c01::failure_sig("c06", &clause, &obs, &r), detail)),
         };
         CaseOut { verdict, nontrivial, labels, fingerprint: fp, execs: 1 }
     }
